@@ -30,7 +30,10 @@ pub fn cmd_classify(arg: &str) -> String {
 pub fn cmd_srep(arg: &str) -> String {
     let p: Vec<&str> = arg.trim().split(' ').collect();
     let ver = version_of(p[0]);
-    let secs: u64 = p[1].parse().unwrap();
+    // a negative number of seconds is a clock reading BEFORE the epoch (epoch - |secs| - nanos)
+    let secs_signed: i64 = p[1].parse().unwrap();
+    let secs: u64 = secs_signed.unsigned_abs();
+    let before_epoch = secs_signed < 0;
     let nanos: u32 = p[2].parse().unwrap();
     let root = unhex(p[3]);
     // ONE OnlineKey object per harness process signs every `srep` line it is given — both
@@ -45,7 +48,8 @@ pub fn cmd_srep(arg: &str) -> String {
         let ok = g.as_mut().unwrap();
         let dele = ok.make_dele();
         let pubk = dele.get_field(Tag::PUBK).unwrap().to_vec();
-        let m = ok.make_srep(ver, UNIX_EPOCH + Duration::new(secs, nanos), &root);
+        let now = if before_epoch { UNIX_EPOCH - Duration::new(secs, nanos) } else { UNIX_EPOCH + Duration::new(secs, nanos) };
+        let m = ok.make_srep(ver, now, &root);
         let sig = m.get_field(Tag::SIG).unwrap().to_vec();
         let srep = m.get_field(Tag::SREP).unwrap().to_vec();
         let mut signed = ver.sign_prefix().to_vec();
